@@ -158,8 +158,9 @@ def execute(desc, ctx):
         stats = vmfgen.desc_stats(desc['map'])
         m = vmfgen.build_vmf(desc['map'])
         for k, n in stats.items():
-            if n and k != 'max_power':
+            if n and k not in ('max_power', 'labels'):
                 ctx.label(k)
+        ctx.label(*sorted(stats['labels']))
         if stats['max_power']:
             ctx.label(f'disp_power_{stats["max_power"]}')
     ctx.label('preserve_ids' if p else 'renumber_ids')
@@ -257,7 +258,8 @@ SUBCHECKS = [
     Sub('brushes', exec_brushes, strategy=_strat(cfg_brushes), quick=500, thorough=10000, floor=150,
         must_hit=('prisms', 'raw_solids', 'hidden_solids', 'world_brushes', 'brush_ents', 'strata_points', 'nasty_mats')),
     Sub('displacements', exec_disps, strategy=_strat(cfg_disps), quick=400, thorough=4000, floor=80,
-        must_hit=('disps', 'multiblend_disps', 'disp_power_1', 'disp_power_2', 'opt_no_multiblend')),
+        must_hit=('disps', 'multiblend_disps', 'disp_power_1', 'disp_power_2', 'opt_no_multiblend',
+                  'mb:only_w', 'mb:only_x', 'mb:one_vertex', 'mb:all_equal', 'mb:dense', 'ma:only_w')),
     Sub('meta', exec_meta, strategy=_strat(cfg_meta), quick=600, thorough=10000, floor=250,
         must_hit=('visgroups', 'nested_visgroups', 'cameras', 'cordons', 'viewports', 'inst_vis', 'opt_minimal')),
     Sub('whole', exec_whole, strategy=_strat(cfg_whole), quick=300, thorough=5000, floor=60,
